@@ -805,3 +805,115 @@ func runR128(c *Ctx) {
 		c.undecided("qframe|name map insertions", "-", "no insertion into a map[string]namedColumn inside a loop found")
 	}
 }
+
+// ---- R129: an instruction without a source column still honours the row selection ----
+
+func init() {
+	register(&Rule{ID: "R129", Name: "APPLY-SELECTION", Floor: 8,
+		Text: "in the root package's zero-argument apply helper (the QFrame method that switches over the dynamic type of an instruction's Fn - func() T, a constant, a column name - and builds the destination column without a source column) every case that produces a column consults the frame's row index: the data is filled in a loop over qf.index, or the column comes from a call that is handed qf.index. FilteredApply applies its instructions under the filtered index and promises zero/null for the rows that do not match; a case that sizes a constant column by the column length, or copies a whole column, gives those rows the value too",
+		Run:  runR129})
+}
+
+func runR129(c *Ctx) {
+	p := c.P
+	var fn *ssa.Function
+	for _, f := range p.FuncsIn("") {
+		if f.Signature.Recv() == nil || f.Parent() != nil || len(f.Params) < 2 {
+			continue
+		}
+		if n, ok := deref(f.Signature.Recv().Type()).(*types.Named); !ok || n.Obj().Name() != "QFrame" {
+			continue
+		}
+		// a type switch with a `func() int`-like case on an interface parameter
+		hit := false
+		eachInstr(f, func(in ssa.Instruction) {
+			if ta, ok := in.(*ssa.TypeAssert); ok && ta.CommaOk {
+				if sig, ok := ta.AssertedType.Underlying().(*types.Signature); ok && sig.Params().Len() == 0 && sig.Results().Len() == 1 {
+					if _, isPrm := ta.X.(*ssa.Parameter); isPrm {
+						hit = true
+					}
+				}
+			}
+		})
+		if hit {
+			fn = f
+		}
+	}
+	if fn == nil {
+		c.undecided("qframe|zero-argument apply helper", "-", "no QFrame method that switches over func() T / constant instructions found")
+		return
+	}
+	frame := fn.Params[0]
+	isFrameIndex := func(v ssa.Value) bool {
+		if fld, x := fieldOf(v); fld != nil && isIntIndexType(fld.Type()) {
+			root := x
+			for {
+				if u, ok := root.(*ssa.UnOp); ok {
+					root = u.X
+					continue
+				}
+				break
+			}
+			if root == ssa.Value(frame) {
+				return true
+			}
+			if al, ok := root.(*ssa.Alloc); ok {
+				for _, r := range *al.Referrers() {
+					if st, ok := r.(*ssa.Store); ok && st.Addr == ssa.Value(al) && st.Val == ssa.Value(frame) {
+						return true
+					}
+				}
+			}
+		}
+		return false
+	}
+	loops := loopsOf(fn)
+	eachInstr(fn, func(in ssa.Instruction) {
+		ta, ok := in.(*ssa.TypeAssert)
+		if !ok || !ta.CommaOk {
+			return
+		}
+		if _, isPrm := ta.X.(*ssa.Parameter); !isPrm {
+			return
+		}
+		var okIf *ssa.If
+		for _, r := range *ta.Referrers() {
+			if ex, ok := r.(*ssa.Extract); ok && ex.Index == 1 {
+				for _, r2 := range *ex.Referrers() {
+					if iff, ok := r2.(*ssa.If); ok {
+						okIf = iff
+					}
+				}
+			}
+		}
+		if okIf == nil {
+			return
+		}
+		key := fname(fn) + "|case " + types.TypeString(ta.AssertedType, shortQual)
+		consults := false
+		for _, blk := range fn.Blocks {
+			if !edgeDominates(okIf.Block(), 0, blk) {
+				continue
+			}
+			for _, li := range loops {
+				if li.base != nil && li.header == blk && isFrameIndex(li.base) {
+					consults = true
+				}
+			}
+			for _, i2 := range blk.Instrs {
+				if call, ok := i2.(ssa.CallInstruction); ok {
+					for _, a := range call.Common().Args {
+						if isFrameIndex(a) {
+							consults = true
+						}
+					}
+				}
+			}
+		}
+		if consults {
+			c.ok(key, p.instrPos(ta), "the destination is filled through the frame's row index")
+		} else {
+			c.bad(key, p.instrPos(ta), "this kind of instruction builds its destination column without looking at the frame's row index: under FilteredApply the rows that do not match the clause get the value as well, not zero/null")
+		}
+	})
+}
